@@ -337,7 +337,8 @@ GENERIC_DESC = (
     "R-DENSIFY a region projected with to_crs in order to cover it asks for densification (or was densified already); "
     "R-TERMINATION a while loop advancing by a caller-supplied step is reached only with the step known positive; "
     "R-INTIDX an index is told from a slice by isinstance(x, slice) or an integer test that covers numpy integers; "
-    "R-ANNOT no unconditional assert isinstance() rejects a member of the parameter's own Union annotation"
+    "R-ANNOT no unconditional assert isinstance() rejects a member of the parameter's own Union annotation; "
+    "R-PRECISION no single-precision coordinate arrays on the planning path (roi, geobox, overlap, gcp)"
 )
 
 
@@ -365,7 +366,7 @@ def _with_generic(pid, fn):
     def wrapped(prog: Program, run: Run, tier: str) -> None:
         fn(prog, run, tier)
         mods = {m for m in ANCHORED.get(pid, set()) if m in prog.modules}
-        run.add(generic.rule_dup(prog, mods) + generic.rule_truthy(prog, mods) + generic.rule_abseps(prog, mods) + generic.rule_localmemo(prog, mods) + generic.rule_remainder_owner(prog, mods) + generic.rule_fallback(prog, mods) + generic.rule_isclose(prog, mods) + generic.rule_signed_magnitude(prog, mods) + generic.rule_zerodiv(prog, mods) + generic.rule_densify(prog, mods) + generic.rule_termination(prog, mods) + generic.rule_intidx(prog, mods) + generic.rule_assert_vs_annotation(prog, mods), GENERIC_DESC)
+        run.add(generic.rule_dup(prog, mods) + generic.rule_truthy(prog, mods) + generic.rule_abseps(prog, mods) + generic.rule_localmemo(prog, mods) + generic.rule_remainder_owner(prog, mods) + generic.rule_fallback(prog, mods) + generic.rule_isclose(prog, mods) + generic.rule_signed_magnitude(prog, mods) + generic.rule_zerodiv(prog, mods) + generic.rule_densify(prog, mods) + generic.rule_termination(prog, mods) + generic.rule_intidx(prog, mods) + generic.rule_assert_vs_annotation(prog, mods) + generic.rule_precision(prog, mods), GENERIC_DESC)
 
     wrapped.__name__ = pid
     wrapped.__doc__ = fn.__doc__
